@@ -331,6 +331,26 @@ def check(pattern, actual):
                 return "right element %s missing from %s" % (
                     json.dumps(x), json.dumps(actual))
         return None
+    if tag == "FM":        # frame hash: exactly these keys in this order
+        if kind(actual) != "M" or [k for k, _ in actual[1]] != \
+                [k for k, _ in pattern[1]]:
+            return "outside the merge point: keys %s became %s" % (
+                json.dumps([k for k, _ in pattern[1]]), json.dumps(
+                    [k for k, _ in actual[1]] if kind(actual) == "M"
+                    else actual))
+        for (k, p), (_, a) in zip(pattern[1], actual[1]):
+            why = check(p, a)
+            if why:
+                return "under %s: %s" % (jk(k), why)
+        return None
+    if tag == "FL":        # frame list: same length, element-wise
+        if kind(actual) != "L" or len(actual[1]) != len(pattern[1]):
+            return "outside the merge point: list %s" % json.dumps(actual)
+        for i, (p, a) in enumerate(zip(pattern[1], actual[1])):
+            why = check(p, a)
+            if why:
+                return "under [%d]: %s" % (i, why)
+        return None
     if tag == "MAP":
         _, lkeys, newkeys, pats = pattern
         if kind(actual) != "M":
